@@ -43,6 +43,7 @@ def sdl_for(p):
 scalar Tag%s
 enum E%s { ONE%s TWO }
 input I%s { a: Tag = "v"%s e: E }
+input W { i: I is: [I] }
 interface N%s { s: Tag tags: String }
 type O implements N%s { s: Tag tags: String e: E h(y: Tag%s): Tag }
 union U%s = O
@@ -50,6 +51,7 @@ type Query {
   f(x: I%s, y: Tag): Tag%s
   g(y: Tag%s): Tag
   d(x: I = {a: "v"}%s): Tag
+  w(x: W): Tag
   o: O
   os: [O]
   n: N
@@ -154,6 +156,10 @@ def render(v):
     return str(v)
 
 
+def render_w(v):
+    return "W{i=%s;is=%s}" % (render(v["i"]) if "i" in v else "-", "[%s]" % ",".join(render(x) for x in v["is"]) if "is" in v else "-")
+
+
 def build(p):
     name = harness.fresh_name("c13")
     for k in range(NDIR):
@@ -175,6 +181,11 @@ def build(p):
     async def rd(parent, args, ctx, info):
         harness.scenario_of(ctx).events.append(("resolver", "d", "call"))
         return render(args.get("x"))
+
+    @Resolver("Query.w", schema_name=name)
+    async def rw(parent, args, ctx, info):
+        harness.scenario_of(ctx).events.append(("resolver", "w", "call"))
+        return render_w(args.get("x"))
 
     @Resolver("Query.en", schema_name=name)
     async def ren(parent, args, ctx, info):
@@ -241,6 +252,16 @@ def expected(p, req):
                + nest(I("ARGUMENT_DEFINITION"), "argument") + nest(q + fdirs, "field", [("resolver", fname, "call")])
                + nest(I("SCALAR"), "output"))
         return [{fname: out}], [nest(I("SCHEMA"), "schema", log)]
+    if kind in ("w-object", "w-list"):
+        # an I nested in another input object, directly or as a list item, written out or supplied through a variable of type I: the
+        # type-level and field-level hooks of I run once for it either way
+        leaf = compose(compose("T:v", I("SCALAR")), I("INPUT_FIELD_DEFINITION"))
+        obj = compose({"a": leaf}, I("INPUT_OBJECT"))
+        r = render_w({"i": obj} if kind == "w-object" else {"is": [obj]})
+        out = "out:" + compose(r, I("SCALAR"))
+        log = (nest(I("SCALAR"), "input") + nest(I("INPUT_FIELD_DEFINITION"), "input") + nest(I("INPUT_OBJECT"), "input")
+               + [("resolver", "w", "call")] + nest(I("SCALAR"), "output"))
+        return [{"w": out}], [nest(I("SCHEMA"), "schema", log)]
     if kind in ("y-literal", "y-variable"):
         fname = req["field"]
         leaf = compose("T:w", I("SCALAR"))
@@ -317,6 +338,13 @@ def requests():
             out.append({"kind": "x-default", "field": "d", "text": "{ d }", "vars": None, "query_dirs": qd})
             out.append({"kind": "x-literal", "field": "d", "text": '{ d(x: {a: "v"}) }', "vars": None, "query_dirs": qd})
             out.append({"kind": "x-variable", "field": "d", "text": 'query($x: I = {a: "v"}) { d(x: $x) }', "vars": None, "query_dirs": qd})
+            out.append({"kind": "w-object", "text": '{ w(x: {i: {a: "v"}}) }', "vars": None, "query_dirs": qd})
+            out.append({"kind": "w-object", "text": "query($o: I) { w(x: {i: $o}) }", "vars": {"o": {"a": "v"}}, "query_dirs": qd})
+            out.append({"kind": "w-object", "text": "query($x: W) { w(x: $x) }", "vars": {"x": {"i": {"a": "v"}}}, "query_dirs": qd})
+            out.append({"kind": "w-list", "text": '{ w(x: {is: [{a: "v"}]}) }', "vars": None, "query_dirs": qd})
+            out.append({"kind": "w-list", "text": "query($o: I) { w(x: {is: [$o]}) }", "vars": {"o": {"a": "v"}}, "query_dirs": qd})
+            out.append({"kind": "w-list", "text": "query($o: [I]) { w(x: {is: $o}) }", "vars": {"o": {"a": "v"}}, "query_dirs": qd})
+            out.append({"kind": "w-list", "text": "query($x: W) { w(x: $x) }", "vars": {"x": {"is": {"a": "v"}}}, "query_dirs": qd})
             out.append({"kind": "y-literal", "field": "g", "text": '{ g(y: "w") }', "vars": None, "query_dirs": qd})
             out.append({"kind": "y-variable", "field": "g", "text": "query($y: Tag) { g(y: $y) }", "vars": {"y": "w"}, "query_dirs": qd})
             out.append({"kind": "list-literal", "text": '{ os { h(y: "w") } }', "vars": None, "query_dirs": qd})
